@@ -373,7 +373,7 @@ def finish(o, spec, jobs, results, seed, wall, wd):
         if r['status'] == 'violation': violations.append((r, r['failed']))
         elif r['status'] != 'held': broken.append(r)
     os.makedirs(os.path.join(VERIF, 'replays'), exist_ok=True)
-    for l in kf_lines: print(l)
+    for l in sorted(set(kf_lines)): print(l)
     for r, failed in violations:
         body = dict(property=prop, job=r['job'], tier=o.tier, failed=failed, inputs=r.get('counterexample_inputs'), bounds=r.get('bounds'),
                     native_replay=r.get('native_replay'), cmd=r.get('cmd'), entry=r.get('entry'))
